@@ -49,7 +49,7 @@ def metaw(m, a, napp, tiers):
         reach=["uncompressed_block", "compressed_block", "compressor_error"] + (["two_blocks"] if a * napp > m else []),
         functions=["sqfs_meta_writer_append, sqfs_meta_writer_flush, write_block, sqfs_meta_write_write_to_file, sqfs_meta_writer_get_position (lib/sqfs/src/meta_writer.c)"],
         bound="%d appends of 0..%d symbolic bytes then flush, metadata block size scaled to %d, KEEP_IN_MEMORY symbolic, compressor returns any contract-conforming value" % (napp, a, m))
-OBLIGATIONS += [metaw(4, 3, 2, ["quick", "thorough"]), metaw(4, 5, 2, ["thorough"]), metaw(3, 3, 3, ["thorough"])]
+OBLIGATIONS += [metaw(4, 3, 2, ["quick", "thorough"]), metaw(4, 5, 2, ["thorough"]), dict(metaw(3, 3, 3, ["thorough"]), timeout_thorough=2700)]  # 865 s when it passed, 900 s limit hit under load
 
 OBLIGATIONS.append(dict(name="fragment_block_always_stored_bs4", harness="harness/C17_fragblock.c", sources=["lib/sqfs/src/inode.c", "lib/util/src/is_memory_zero.c", "lib/util/src/alloc.c"],
     included_sources=["lib/sqfs/src/block_processor/block_processor.c", "lib/sqfs/src/block_processor/backend.c"], incdirs=["lib/sqfs/src/block_processor"],
